@@ -1274,29 +1274,72 @@ def _is_step_call(ctx, fi: FuncInfo, call: ast.Call, step: FuncInfo) -> Optional
 def r_fixpoint(ctx) -> RuleResult:
     res = RuleResult("R-FIXPOINT", "the refinement driver hands out a partition only when its class count equals that of its one-step refinement (or after >= number_of_nodes rounds)")
     step = _step_function(ctx)
-    drivers = []
-    for fi in closure(ctx, "canonicalize"):
-        if fi.fq == step.fq:
-            continue
-        for n in own_walk(fi.node):
-            if isinstance(n, ast.Call) and _is_step_call(ctx, fi, n, step) is not None:
-                drivers.append(fi)
-                break
-    if not drivers:
-        raise AnalysisError("R-FIXPOINT: no function refines by the partition attribute (anchor vanished)")
-    # a helper that performs one step for another function of the closure (no loop, no recursion of its own) is part of
-    # that function's iteration, not a driver: the stability test lives in its caller
     canon = entry(ctx, "canonicalize")
-    wrappers = []
+    part = _partition_key(ctx)
+    # drivers: what canonicalize_molecule calls (directly) that reaches the step function
+    drivers = []
+    for cs in sites(ctx, canon):
+        if cs.kind == "tucan" and cs.target.fq != step.fq and step.fq in ctx.cg.closure([cs.target.fq]) and cs.target not in drivers:
+            drivers.append(cs.target)
+    if not drivers:
+        raise AnalysisError("R-FIXPOINT: canonicalize_molecule calls no function that iterates the refinement step (anchor vanished)")
+    from ..fixsym import FixSym, Undecided
     for fi in drivers:
-        callers = [cs.caller for cs in ctx.cg.callers_of(fi.fq) if cs.caller.fq not in (canon.fq, fi.fq) and cs.caller.fq in {f.fq for f in closure(ctx, "canonicalize")}]
-        if callers:
-            wrappers.append(fi)     # its results go to another function of the pipeline, which may be the one that tests stability
-    if wrappers:
-        raise AnalysisError(f"R-FIXPOINT: the refinement step is wrapped by {wrappers[0].qualname}; the iteration around it is not of a form this rule reads")
-    for fi in drivers:
-        _check_driver(ctx, fi, step, res)
+        try:
+            outs = FixSym(ctx, step, part, lambda f, c: _is_step_call(ctx, f, c, step)).run(fi)
+        except Undecided as ex:
+            # forms the path-sensitive interpreter does not read: the idiom-based reading (plain loops / recursion)
+            _idiom_driver(ctx, fi, step, res, why=str(ex))
+            continue
+        if not outs:
+            raise AnalysisError(f"R-FIXPOINT: {fi.qualname} neither returns nor yields a partition on any path this rule follows")
+        pending = []
+        for o in outs:
+            t = o.term
+            if not (isinstance(t, tuple) and t[0] == "g"):
+                raise AnalysisError(f"R-FIXPOINT: cannot relate what `{short(o.node)}` in {o.fi.qualname} hands out to the chain of refinements ({t})")
+            k = t[1]
+            stable = False
+            for op, x, y in o.facts:
+                if op != "eq":
+                    continue
+                for a_, b_ in ((x, y), (y, x)):
+                    if isinstance(a_, tuple) and isinstance(b_, tuple) and a_[0] == b_[0] == "cnt" and a_[1] == b_[1] and {a_[2], b_[2]} in ({k, k - 1}, {k, k + 1}):
+                        stable = True
+            if stable:
+                res.inst(o.fi.fq, short(o.node), "ok", detail="on every path to it the class count equals that of the neighbouring refinement")
+            else:
+                pending.append(o)
+        if pending:
+            # not shown stable by a class-count comparison: the size-bounded and the discrete idiom are read the old way
+            sub = RuleResult("idiom")
+            try:
+                _idiom_driver(ctx, fi, step, sub, why="")
+            except AnalysisError:
+                sub = None
+            if sub is not None and sub.instances and not sub.findings:
+                for i_ in sub.instances:
+                    res.instances.append(i_)
+            else:
+                for o in pending:
+                    res.inst(o.fi.fq, short(o.node), "fail")
+                    res.fail(Finding("R-FIXPOINT", o.fi.module.rel, o.fi.qualname, norm(o.node),
+                                     "a partition is handed out on a path on which its class count was not found equal to that of its one-step refinement: "
+                                     "the returned partition need not be stable", line=o.node.lineno))
     return res
+
+
+def _idiom_driver(ctx, fi: FuncInfo, step: FuncInfo, res: RuleResult, why: str):
+    """the idiom-based reading: the driver (or a function it is the only caller of) calls the step directly"""
+    cands = [fi] + [ctx.cg.funcs[q] for q in ctx.cg.closure([fi.fq]) if q != step.fq]
+    direct = [f for f in cands if any(isinstance(n, ast.Call) and _is_step_call(ctx, f, n, step) is not None for n in own_walk(f.node))]
+    direct = list({f.fq: f for f in direct}.values())
+    if not direct:
+        raise AnalysisError(f"R-FIXPOINT: no function refines by the partition attribute (anchor vanished){'; ' + why if why else ''}")
+    if [f.fq for f in direct] != [fi.fq]:
+        raise AnalysisError(f"R-FIXPOINT: the refinement step is wrapped by {direct[0].qualname}; the iteration around it is not of a form this rule reads"
+                            + (f" ({why})" if why else ""))
+    _check_driver(ctx, fi, step, res)
 
 
 def _check_driver(ctx, fi: FuncInfo, step: FuncInfo, res: RuleResult):
